@@ -423,6 +423,9 @@ func genC04(r *Rng, tier string) *World {
 			inN = Pick(r, absentForms)
 		case 2:
 			inN = Pick(r, falsyForms)
+			if kind == "slice" && N.Elem.IsPrim() && N.Elem.Kind != "time" && r.P(0.5) {
+				inN = Pick(r, []Val{{K: "tl", S: N.Elem.Kind, B: true}, VL()}) // typed nil / empty list: present
+			}
 		default:
 			inN, missing = GenParseInput(r, &GenCfg{MaxElems: 2, PValid: 0.7, MaxDepth: 3, MaxFields: 3}, N)
 		}
